@@ -75,7 +75,7 @@ def run_file(desc, prop="C05"):
         writer.write(aval)
         F.wait_fs_tick(d)
         for step in range(rng.randint(3, 8)):
-            op = "run" if step == 0 else rng.choice(["run", "update_same_len", "update", "touch_source", "delete", "run"])
+            op = "run" if step == 0 else rng.choice(["run", "update_same_len", "update", "touch_source", "delete", "run", "leftover_staging"])
             if op == "update_same_len":
                 aval = {"v": rng.choice([v for v in range(10, 100) if v != aval["v"]]), "pad": pad}
                 writer.write(aval)
@@ -90,6 +90,13 @@ def run_file(desc, prop="C05"):
                     os.remove(stores[victim].path)
                 except OSError:
                     pass
+            elif op == "leftover_staging":
+                # what a writer killed between opening its staging file and the rename leaves behind, next to a value that is complete:
+                # it changes nothing about which values are out of date
+                victim = rng.choice(names)
+                with open(str(stores[victim].path) + ".STAGING", "wb") as f_:
+                    f_.write(rng.choice([b"", b'{"v": 1', b"\x80\x04junk" * 40]))
+                counters["file_leftover_staging_files"] = counters.get("file_leftover_staging_files", 0) + 1
             log.append(op)
             F.wait_fs_tick(os.path.join(d, "data") if symlinked else d)
             F.wait_fs_tick(d)
